@@ -35,14 +35,6 @@ broadcast use {f64ax::group_f64_axioms, dispax::axiom_display_total, cloneax::ax
 //@ with
 -> (r: SingleSourceResults)
 //@ rewrite
-    let mut D = vec![f64::MAX; graph.number_of_nodes()];
-//@ with
-    let mut D = vec![vf64_max(); graph.number_of_nodes()];
-//@ rewrite
-            if D[w] == f64::MAX {
-//@ with
-            if D[w] == vf64_max() {
-//@ rewrite
 sigma[w] += sigmav;
 //@ with
 sigma[w] = sigma[w] + sigmav;
@@ -50,6 +42,10 @@ sigma[w] = sigma[w] + sigmav;
     let mut S = vec![];
 //@ with
     let mut S: Vec<usize> = vec![];
+//@ rewrite count=any
+f64::MAX
+//@ with
+vf64_max()
 //@ spec
     requires
         graph.wf_nodes(),
@@ -126,10 +122,6 @@ distance: core::ops::Neg::neg(vw_dist),
 -> SingleSourceResults
 //@ with
 -> (r: SingleSourceResults)
-//@ rewrite count=2
-f64::MAX; graph.number_of_nodes()];
-//@ with
-vf64_max(); graph.number_of_nodes()];
 //@ rewrite
         distance: -0.0,
 //@ with
@@ -138,14 +130,6 @@ vf64_max(); graph.number_of_nodes()];
 let dist = -fringe_item.distance;
 //@ with
 let dist = core::ops::Neg::neg(fringe_item.distance);
-//@ rewrite
-        if D[v] != f64::MAX {
-//@ with
-        if D[v] != vf64_max() {
-//@ rewrite
-if D[w] == f64::MAX && (seen[w] == f64::MAX || vw_dist < seen[w]) {
-//@ with
-if D[w] == vf64_max() && (seen[w] == vf64_max() || vw_dist < seen[w]) {
 //@ rewrite
         sigma[v] += sigma[pred];
 //@ with
@@ -158,6 +142,10 @@ if D[w] == vf64_max() && (seen[w] == vf64_max() || vw_dist < seen[w]) {
     let mut S = vec![];
 //@ with
     let mut S: Vec<usize> = vec![];
+//@ rewrite count=any
+f64::MAX
+//@ with
+vf64_max()
 //@ spec
     requires
         graph.wf_nodes(),
@@ -224,10 +212,6 @@ pub fn vcollect_reached(D: Vec<f64>) -> (r: Vec<(usize, f64)>)
 -> Vec<(usize, f64)>
 //@ with
 -> (r: Vec<(usize, f64)>)
-//@ rewrite count=2
-f64::MAX; graph.number_of_nodes()];
-//@ with
-vf64_max(); graph.number_of_nodes()];
 //@ rewrite
         distance: -0.0,
 //@ with
@@ -236,14 +220,6 @@ vf64_max(); graph.number_of_nodes()];
 let dist = -fringe_item.distance;
 //@ with
 let dist = core::ops::Neg::neg(fringe_item.distance);
-//@ rewrite
-        if D[v] != f64::MAX {
-//@ with
-        if D[v] != vf64_max() {
-//@ rewrite
-if D[w] == f64::MAX && (seen[w] == f64::MAX || vw_dist < seen[w]) {
-//@ with
-if D[w] == vf64_max() && (seen[w] == vf64_max() || vw_dist < seen[w]) {
 //@ rewrite
         sigma[v] += sigma[pred];
 //@ with
@@ -259,6 +235,10 @@ if D[w] == vf64_max() && (seen[w] == vf64_max() || vw_dist < seen[w]) {
         .collect()
 //@ with
     vcollect_reached(D)
+//@ rewrite count=any
+f64::MAX
+//@ with
+vf64_max()
 //@ spec
     requires
         graph.wf_nodes(),
